@@ -1044,3 +1044,139 @@ def option_scores():
     out.append(("bare13", {"parts": [_mode_part("P1", 0, 1, [1], False, 0, with_meta=False),
                                       _mode_part("P2", 1, 3, [None], False, 0, with_meta=False)]}))
     return out
+
+
+# ---------------------------------------------------------------------------------------------
+# order of the events of one tick (sub-space tick-order): hand-overs of one pitch between (part, voice) keys that
+# are merged into one track/channel, with meta events standing at the very tick of the hand-over
+
+TICKORDER_HOMES = [(0, 1), (0, 2), (1, 1)]  # (part, voice)
+TICKORDER_TEMPO = {1: 90, 2: 72}  # bpm of a tempo mark at quarter 1 / quarter 2
+
+
+def _tickorder_score(d, used_parts, pobjs, metas, ts_change):
+    """parts of 2/4 (measure 1 = quarters 0..2, measure 2 = quarters 2..4, or 2..5 in 3/4 with ts_change), every
+    part with an anchor note of a pitch of its own in voice 3 over the whole length, time signature 2/4 and a key
+    signature at 0.  metas: {quarter: (tempo carrier part index or None, key signature yes/no)}; a key signature
+    (and the time signature change) stands in EVERY part, a tempo mark in its carrier only."""
+    end = 5 * d if ts_change else 4 * d
+    parts = []
+    for pi in used_parts:
+        objs = [ts(0, 2, 4), measure(1, 0, 2 * d), measure(2, 2 * d, end), ks(0, pi - 1, "major")]
+        if ts_change:
+            objs.append(ts(2 * d, 3, 4))
+        for q in sorted(metas):
+            carrier, has_ks = metas[q]
+            if has_ks:
+                objs.append(ks(q * d, pi + q, "minor"))
+            if carrier == pi:
+                objs.append(tempo(q * d, TICKORDER_TEMPO[q], "q"))
+        objs.append(note("x%d" % pi, 0, end, 72 + pi, 3))
+        objs += pobjs[pi]
+        parts.append(part("P%d" % (pi + 1), [(0, d)], objs))
+    return {"parts": parts}
+
+
+def _tickorder_metas(used_parts, quarters_with_ts, carriers="all"):
+    """every combination of meta events at the given quarters: tempo mark {none, in the first part, in the last
+    part (if there are two)} x key signature {no, yes} x (at the quarters of `quarters_with_ts`) time signature
+    change {no, yes}.  carriers='cycle': one carrier per combination, alternating, instead of both."""
+    quarters = (1, 2)
+    first, last = used_parts[0], used_parts[-1]
+    tempo_opts = [None, first] + ([last] if last != first else [])
+    per_q = []
+    for q in quarters:
+        opts = [(c, k, t) for c in tempo_opts for k in (False, True) for t in ((False, True) if q in quarters_with_ts else (False,))]
+        per_q.append(opts)
+    n = 0
+    for combo in product(*per_q):
+        if carriers == "cycle" and last != first:
+            # keep the combinations whose marks are all carried by one part, that part alternating
+            cs = {c for c, _, _ in combo if c is not None}
+            if len(cs) > 1:
+                continue
+            if cs:
+                n += 1
+                if cs != {(first, last)[n % 2]}:
+                    continue
+        metas = {q: (c, k) for q, (c, k, _) in zip(quarters, combo)}
+        ts_change = any(t for _, _, t in combo)
+        yield metas, ts_change
+
+
+def _meta_tag(metas, ts_change):
+    out = []
+    for q in sorted(metas):
+        c, k = metas[q]
+        s = ("T%d" % (c + 1) if c is not None else "") + ("K" if k else "") + ("S" if ts_change and q == 2 else "")
+        out.append("q%d:%s" % (q, s or "-"))
+    return " ".join(out)
+
+
+def gen_tickorder_touch(ds=(1, 6), carriers="all"):
+    """(a) three touching notes of ONE pitch (quarters 0-1, 1-2, 2-4) assigned in all 27 ways to the homes (part 1
+    voice 1, part 1 voice 2, part 2 voice 1): the hand-overs at quarter 1 (mid-bar) and quarter 2 (barline) happen
+    inside one voice, between voices and between parts, with the key of the starting note registered before or
+    after the key of the ending note.  At each of the two hand-over positions every combination of meta events
+    (see _tickorder_metas; the time signature may change at the barline only).  Divisions: `ds` cycled by the
+    number of one bits of the case index (independent of every single binary dimension)."""
+    i = 0
+    iv = [(0, 1), (1, 2), (2, 4)]
+    for assign in product(range(len(TICKORDER_HOMES)), repeat=3):
+        used_parts = sorted({TICKORDER_HOMES[a][0] for a in assign})
+        for metas, ts_change in _tickorder_metas(used_parts, (2,), carriers):
+            d = ds[bin(i).count("1") % len(ds)]
+            i += 1
+            pobjs = {pi: [] for pi in used_parts}
+            for j, a in enumerate(assign):
+                pi, v = TICKORDER_HOMES[a]
+                pobjs[pi].append(note("t%d" % j, iv[j][0] * d, iv[j][1] * d, 60, v))
+            yield dict(score=_tickorder_score(d, used_parts, pobjs, metas, ts_change),
+                       tag="tickorder touch d=%d assign=%s %s" % (d, assign, _meta_tag(metas, ts_change)))
+
+
+def gen_tickorder_grace(ds=(1, 6), ngrace=(1,), carriers="cycle"):
+    """(b) grace notes at a hand-over: at quarter 2 (barline) stand, all on ONE pitch, optionally the end of a note
+    E (quarters 1-2, home hE), n grace notes (home hG, chained to their main note) and optionally the start of a note
+    S (quarters 2-4, home hS); the main note of the graces is S when hS = hG, otherwise a note of another pitch in
+    hG.  A lead note of another pitch (quarters 0-1) in home `lead` makes that home the first registered key.
+    All (lead, hE or none, hG, hS or none) over the three homes x every combination of {tempo mark, key signature,
+    time signature change} at quarter 2 (tempo carrier: first / last part, alternating with carriers='cycle')."""
+    i = 0
+    H = TICKORDER_HOMES
+    for n in ngrace:
+        for lead in range(len(H)):
+            for hE in [None] + list(range(len(H))):
+                for hG in range(len(H)):
+                    for hS in [None] + list(range(len(H))):
+                        homes = [H[x] for x in (lead, hE, hG, hS) if x is not None]
+                        used_parts = sorted({h[0] for h in homes})
+                        first, last = used_parts[0], used_parts[-1]
+                        for tp in (False, True):
+                            for cidx in ((0, 1) if tp and carriers == "all" and first != last else (None,)):
+                                for has_ks in (False, True):
+                                    for ts_change in (False, True):
+                                        d = ds[bin(i).count("1") % len(ds)]
+                                        carrier = None
+                                        if tp:
+                                            carrier = (first, last)[(i if cidx is None else cidx) % 2]
+                                        i += 1
+                                        pobjs = {pi: [] for pi in used_parts}
+                                        pi, v = H[lead]
+                                        pobjs[pi].append(note("lead", 0, d, 55, v))
+                                        if hE is not None:
+                                            pi, v = H[hE]
+                                            pobjs[pi].append(note("E", d, 2 * d, 60, v))
+                                        pi, v = H[hG]
+                                        main = "S" if hS == hG else "M"
+                                        for g in range(n):
+                                            pobjs[pi].append(grace("g%d" % g, 2 * d, 60, v, "g%d" % (g + 1) if g + 1 < n else main))
+                                        if hS != hG:
+                                            pobjs[pi].append(note("M", 2 * d, 3 * d, 62, v))
+                                        if hS is not None:
+                                            pi, v = H[hS]
+                                            pobjs[pi].append(note("S", 2 * d, 4 * d, 60, v))
+                                        metas = {2: (carrier, has_ks)}
+                                        yield dict(score=_tickorder_score(d, used_parts, pobjs, metas, ts_change),
+                                                   tag="tickorder grace d=%d n=%d lead=%d E=%s G=%d S=%s %s" % (
+                                                       d, n, lead, hE, hG, hS, _meta_tag(metas, ts_change)))
